@@ -60,3 +60,23 @@ Lemma lvl_model_eq_impl_sweep :
                     | None => false
                     end) (range 256) = true.
 Proof. vm_compute. reflexivity. Qed.
+
+(* ---- T.35 country codes and SEI payload type names ---- *)
+From H264 Require Import Model.SeiTables.
+
+(* the dump called ItuTT35::read on [b; 0xa1; 0xa2; 0xa3]: name and number of bytes consumed *)
+Lemma t35_model_eq_impl_sweep :
+  forallb (fun b => match lookup b impl_t35, t35_read [b; 161; 162; 163] with
+                    | Some (Some (nm, off)), T35Ok nm' rest => String.eqb nm nm' && (N.of_nat (length rest) + off =? 4)
+                    | _, _ => false
+                    end) (range 256) = true.
+Proof. vm_compute. reflexivity. Qed.
+
+(* distinct country codes are reported as distinct values: the value identifies the code *)
+Lemma t35_names_injective_sweep :
+  forallb (fun a => forallb (fun b => (a =? b) || negb (String.eqb (t35_country_name a) (t35_country_name b))) (range 255)) (range 255) = true.
+Proof. vm_compute. reflexivity. Qed.
+
+Lemma seitype_model_eq_impl_sweep :
+  forallb (fun kv => match snd kv with Some nm => String.eqb nm (sei_type_name (fst kv)) | None => false end) impl_seitype = true.
+Proof. vm_compute. reflexivity. Qed.
